@@ -1,6 +1,8 @@
 -- root of the library: importing every property module builds everything (`lake build ChfVerif`)
 import ChfVerif.Props.C01
 import ChfVerif.Props.C02
+import ChfVerif.Props.C04
+import ChfVerif.Props.C05
 import ChfVerif.Props.C06
 import ChfVerif.Props.C07
 import ChfVerif.Props.C08
@@ -9,5 +11,6 @@ import ChfVerif.Props.C12
 import ChfVerif.Props.C13
 import ChfVerif.Props.C14
 import ChfVerif.Props.C15
+import ChfVerif.Props.C16
 import ChfVerif.Props.C17
 import ChfVerif.Props.C20
